@@ -414,10 +414,13 @@ class SimulationAlgorithm(BaseSimulationAlgorithm):
                 np.random.normal(0.0, 1.0, self.param_study["patient_number"]),
                 dtype=torch.float32,
             )
-            individual_parameters_from_model_parameters[f"sources_{i}"] = (
-                individual_parameters_from_model_parameters[f"sources_{i}"]
-                - individual_parameters_from_model_parameters[f"sources_{i}"].mean()
-            ) / individual_parameters_from_model_parameters[f"sources_{i}"].std()
+            # standardize the sources over the simulated cohort (a single individual keeps its draw:
+            # the empirical standard deviation of one value is not defined)
+            if self.param_study["patient_number"] > 1:
+                individual_parameters_from_model_parameters[f"sources_{i}"] = (
+                    individual_parameters_from_model_parameters[f"sources_{i}"]
+                    - individual_parameters_from_model_parameters[f"sources_{i}"].mean()
+                ) / individual_parameters_from_model_parameters[f"sources_{i}"].std()
 
         if model.source_dimension:
             patient_source_values_matrix = torch.stack(
